@@ -3,8 +3,9 @@
 Decided: the event plumbing that lets the segment fetcher fall back to the
 remaining shares (DESIGN.md section 5, C03): wake-up discipline, per-state share
 bookkeeping, share abandonment, the gate of the not-enough-shares verdict, the
-per-server diversity escalation, the hand-over of shares / requests / blocks on the success path and the request
-accounting of the finder."""
+per-server diversity escalation, the hand-over of shares / requests / blocks on the success path, the request
+accounting of the finder, the isolation of a rejected hash chain from the node's shared hash trees and the events that
+reach a fetcher which has already stopped."""
 from sa.h import *
 
 EXPLANATION = (
@@ -32,13 +33,28 @@ EXPLANATION = (
     "work when the share is alive / the fetcher running / the finder running and hungry; (8) the premise of the "
     "no_more_shares gate: send_request enters the request token into pending_requests, the DYHB Deferred retires it on "
     "success and failure, _request_retired removes it, overdue() marks it in overdue_requests, and the server variable "
-    "of ShareFinder.loop is bound on every path. Undecided: that the loop's choices reach k for every fault timing; "
+    "of ShareFinder.loop is bound on every path; (9) a corrupt share cannot poison the trees the intact shares are "
+    "validated against: the DownloadNode feeds share-supplied chains into its shared share-hash / ciphertext-hash "
+    "IncompleteHashTrees, so a rejecting set_hashes must leave the tree as it found it - every store of the call is journaled "
+    "before the next rejection and the handler covers every rejection class and re-raises (C35.1 / C35.2, adopted as C03.9.1 / "
+    "C03.9.2), a rollback handler exists, walks the journal on every path to its re-raise, resets every journaled index, and "
+    "the journal loses no entry while a rejection is still possible; (10) the node keeps _active_segment pointing at a fetcher "
+    "that stopped while its segment is decoded (decided: a SegmentFetcher method calls stop() and then a DownloadNode method "
+    "that can return without re-binding _active_segment) and stop() deletes the fetcher's lists, so got_shares records the "
+    "shares in self._shares before the hand-over that raises on a stopped fetcher, or on every path out of a handler that "
+    "takes that exception; (11) SegmentFetcher._do_loop touches nothing that stop() invalidated and reports nothing to the "
+    "node unless self._running was tested (in _do_loop or in front of every call of it): no_more_shares forwarded to the "
+    "stopped fetcher wakes its loop, and an exception there is reported as fetch_failed for a segment whose blocks were "
+    "all fetched. Undecided: that the loop's choices reach k for every fault timing; "
+    "the value-level correctness of the hash-tree walk (C35 / C02.8 decide it) and exceptions of set_hashes that are not "
+    "explicit rejections; whether a try/except around the hand-over in got_shares that swallows the error is meant (C03.1 "
+    "reports such a path as a lost event); "
     "removal from _shares_from_server and the `>=` of the per-server limit (compensated by (5), so not necessary "
     "conditions); every value-level clause: which byte range _satisfy_data_block / _send_requests read (block offset, "
     "tail length, argument order), the off-by-one of the segment-number and k comparisons, the order of the hash-tree "
     "steps of _get_satisfaction, the argument order of _fail / notify / _start_share (a swapped call raises at its "
     "first use), max_outstanding_requests and the overdue timer itself (latency only), and _last_failure (reporting).")
-TECHNIQUE = "static analysis: must-pass path queries with excusing edge facts, CFG exploration per share state / per fact set, def-use closure, Deferred chain order"
+TECHNIQUE = "static analysis: must-pass path queries with excusing edge facts, CFG exploration per share state / per fact set (incl. exception edges of one call), def-use closure, Deferred chain order, rollback pairing adopted from C35"
 
 NODE = "immutable.downloader.node:DownloadNode"
 FETCH = "immutable.downloader.fetcher:SegmentFetcher"
@@ -354,7 +370,8 @@ def run(ctx: Context):
             return fn
 
         # SegmentFetcher
-        handler(FETCH + ".add_shares", self_loop, "scheduling SegmentFetcher.loop")
+        stopped = lambda op, l, rr: op == "false" and l == "self._running"     # a stopped fetcher has no use for the event
+        handler(FETCH + ".add_shares", self_loop, "scheduling SegmentFetcher.loop", stopped)
         f = handler(FETCH + ".no_more_shares", self_loop, "scheduling SegmentFetcher.loop")
         _must_pass(r, f, _stores_const("self._no_more_shares", True), "recording _no_more_shares = True")
         handler(FETCH + "._block_request_activity", self_loop, "scheduling SegmentFetcher.loop",
@@ -401,8 +418,7 @@ def run(ctx: Context):
         idle = lambda op, l, rr: (op == "false" and l == "self._active_segment") or \
             (op in ("is", "==") and {l, rr} == {"None", "self._active_segment"})
         handler(NODE + ".got_shares", _calls(f, "self._active_segment.add_shares"), "passing the shares to the active fetcher", idle)
-        _must_pass(r, f, lambda n: any(call_name(c) in ("self._shares.update", "self._shares.add") for c in node_calls(n))
-                   or "self._shares" in node_stores(n), "remembering the shares for later segments")
+        _must_pass(r, f, _records_shares, "remembering the shares for later segments")
         f = idx.func(NODE + ".no_more_shares")
         handler(NODE + ".no_more_shares", _calls(f, "self._active_segment.no_more_shares"),
                 "telling the active fetcher that no more shares will come", idle)
@@ -847,7 +863,8 @@ def _rule_hand_over(ctx: Context):
             return n.kind == "stmt" and "self._shares" in node_stores(n) and isinstance(a, (ast.Assign, ast.AugAssign, ast.AnnAssign)) \
                 and a.value is not None and _p in depends_on(_fn, a.value)
         r.site(fn, None, "keeps the shares")
-        _must_pass(r, fn, keeps, "adding `%s` to self._shares: the shares found are dropped and never requested" % par)
+        _must_pass(r, fn, keeps, "adding `%s` to self._shares: the shares found are dropped and never requested" % par,
+                   _fact_excuse(fn, lambda op, l, rr: op == "false" and l == "self._running"))
 
         # (b) ShareFinder._got_response delivers the shares made from the buckets of the answer
         fn = idx.func(FINDER + "._got_response")
@@ -1194,6 +1211,366 @@ def _rule_alive_filter(ctx: Context):
                   "is_alive() no longer reports the _alive flag cleared by _fail()")
 
 
+HASHTREE_SET = "hashtree:IncompleteHashTree.set_hashes"
+
+
+def _rule_rejection_isolated(ctx: Context):
+    """C03.9: the share-hash tree and the ciphertext-hash tree belong to the DownloadNode and are shared by all
+    shares.  A corrupt share offers a hash chain that is rejected; if the rejected call leaves anything behind
+    (an offered hash, a parent computed from it) the intact shares under that node are rejected afterwards and
+    the read fails with k good shares.  So a rejecting set_hashes must leave the tree exactly as it found it.
+    The pairing store / journal and the exception coverage of the handler are decided by C35.1 / C35.2 and adopted
+    as C03.9.1 / C03.9.2; here: the premise, the existence of the rollback and that it undoes every journaled
+    index on every path to its re-raise."""
+    idx = ctx.idx
+    no_rollback = False
+    with ctx.rule("C03.9", "R10", "a hash chain rejected by IncompleteHashTree.set_hashes leaves the tree as it was: the "
+                  "DownloadNode's shared share-hash / ciphertext-hash trees are fed share-supplied chains, so the rejection "
+                  "handler resets every index the call stored, for every journaled index, on every path to its re-raise",
+                  expected=3) as r:
+        # premise: share-supplied hashes reach trees that outlive the share
+        fed = 0
+        for name in ("process_share_hashes", "process_ciphertext_hashes"):
+            f = idx.func(NODE + "." + name)
+            p0 = first_positional_params(f)[0]
+            for n in f.cfg().nodes:
+                for c in node_calls(n):
+                    tree = attr_path(c.func.value) if isinstance(c.func, ast.Attribute) else None
+                    if call_tail(c) != "set_hashes" or not tree or not tree.startswith("self."):
+                        continue
+                    if not any(p0 in depends_on(f, a) for a in list(c.args) + [k.value for k in c.keywords]):
+                        continue
+                    vals = [x.value for g in f.cls.methods.values() for x in func_own_nodes(g)
+                            if isinstance(x, ast.Assign) and any(attr_path(t) == tree for t in x.targets)]
+                    if not any(isinstance(v, ast.Call) and call_tail(v) == "IncompleteHashTree" for v in vals):
+                        continue
+                    fed += 1
+                    r.site(f, c, "share-supplied hashes go into the node's %s" % tree)
+        if not fed:
+            raise AnchorVanished("DownloadNode no longer feeds share-supplied hashes into its IncompleteHashTrees through set_hashes")
+
+        sh = idx.func(HASHTREE_SET)
+        cfg = sh.cfg()
+
+        def tree_store(n, none):
+            if n.kind != "stmt" or not isinstance(n.ast, ast.Assign) or "self[]" not in node_stores(n):
+                return False
+            v = n.ast.value
+            return (isinstance(v, ast.Constant) and v.value is None) == none
+        fills = cfg.find(lambda n: tree_store(n, False))
+        rejections = cfg.find(is_raise)
+        if not fills or not rejections:
+            raise AnchorVanished("set_hashes no longer stores hashes into the tree / no longer rejects an offer")
+        resets = lambda n: tree_store(n, True)
+        handlers = [h for h in cfg.nodes if h.kind == "except"]
+        undoing = []
+        for h in handlers:
+            vis, _par = explore(cfg, 0, lambda n, lab, nxt, st: 0, start=h)
+            if any(resets(cfg.nodes[i]) for (i, _s) in vis):
+                undoing.append(h)
+        if not undoing:
+            no_rollback = True
+            r.site(sh, None, "no rollback")
+            r.violation(sh, sh.loc(fills[0].ast), "set_hashes stores offered / derived hashes into the tree (%s) and can reject the "
+                        "offer afterwards, but no exception handler takes them out again (self[i] = None): the rejected chain "
+                        "of one corrupt share stays in the DownloadNode's shared hash tree, and every intact share below "
+                        "the poisoned node is rejected too, so the read fails although k good shares exist" % src(sh, fills[0].ast))
+        for h in undoing:
+            r.site(sh, h.ast, "rollback handler")
+            loops = []
+            for lh in cfg.nodes:
+                if lh.kind != "iter" or not isinstance(lh.ast.target, ast.Name):
+                    continue
+                body = [m for st in lh.ast.body for m in own_nodes(st)]
+                if any(isinstance(m, ast.Assign) and isinstance(m.value, ast.Constant) and m.value.value is None
+                       and any(isinstance(t, ast.Subscript) and attr_path(t.value) == "self" and lh.ast.target.id in
+                               {x.id for x in ast.walk(t.slice) if isinstance(x, ast.Name)} for t in m.targets) for m in body):
+                    loops.append(lh)
+            ws, k, _v, _p = _unexcused(sh, lambda n, _l=loops: n in _l, start=h, ends=("exit", "raise"))
+            r.count(k)
+            for w in ws:
+                r.violation(sh, sh.loc(h.ast), "the rejection handler of set_hashes can finish without walking the journal of "
+                            "stored indices (path: %s): the hashes of the rejected chain stay in the shared tree" % w.brief(), w)
+            hreach = {i for (i, _s) in explore(cfg, 0, lambda n, lab, nxt, st: 0, start=h)[0]}
+            journals = {x.id for lh in loops for x in ast.walk(lh.ast.iter) if isinstance(x, ast.Name)}
+            for n in cfg.nodes:
+                if n.id in hreach or n.kind in ("entry", "exit", "raise"):
+                    continue
+                for c in node_calls(n):
+                    if isinstance(c.func, ast.Attribute) and attr_path(c.func.value) in journals and c.func.attr in (
+                            "discard", "remove", "pop", "clear", "difference_update", "intersection_update",
+                            "symmetric_difference_update") and any(
+                                is_raise(cfg.nodes[i]) and i not in hreach for (i, _s) in
+                                explore(cfg, 0, lambda m, lab, nxt, st: None if lab == "exc" else 0, start=n)[0]):
+                        r.violation(sh, sh.loc(c), "set_hashes takes entries out of its rollback journal (%s) before the offer has "
+                                    "been accepted: a hash stored by this call and forgotten here survives a later rejection "
+                                    "of the same chain and poisons the shared tree" % src(sh, c))
+            for lh in loops:
+                for w in _loop_body_must_pass(sh, lh, resets):
+                    r.violation(sh, sh.loc(lh.ast), "the rollback loop of set_hashes can skip a journaled index without resetting "
+                                "it to None (path: %s): part of a rejected chain (for example a parent computed from a corrupt "
+                                "leaf) stays in the DownloadNode's shared hash tree and intact shares below it are rejected" %
+                                w.brief(), w)
+    # the pairing of every store with its journal entry, and the exception classes the handler covers: C35's rules
+    try:
+        ctx.include("C35", ["C35.1", "C35.2"], "C03.9")
+    except AnchorVanished:
+        if not no_rollback:      # a rollback exists but C35 cannot read it: undecided, fail closed
+            raise
+
+
+def _stopped_state(idx):
+    """Attribute paths of SegmentFetcher (`self.x`) that stop() deletes or sets to None: a method that reads one of
+    them on a stopped fetcher raises AttributeError (or fails on None)."""
+    st = idx.func(FETCH + ".stop")
+    dead = set()
+    for n in st.cfg().nodes:
+        if n.kind != "stmt":
+            continue
+        a = n.ast
+        ts = []
+        if isinstance(a, ast.Delete):
+            ts = list(a.targets)
+        elif isinstance(a, ast.Assign) and isinstance(a.value, ast.Constant) and a.value.value is None:
+            ts = list(a.targets)
+        while ts:
+            t = ts.pop()
+            if isinstance(t, (ast.Tuple, ast.List)):
+                ts.extend(t.elts)
+                continue
+            p = attr_path(t)
+            if p and p.startswith("self.") and isinstance(t, ast.Attribute):
+                dead.add(p)
+    return st, dead
+
+
+def _dead_reads(n, dead):
+    return sorted({attr_path(x) for e in node_exprs(n) for x in own_nodes(e)
+                   if isinstance(x, ast.Attribute) and isinstance(x.ctx, ast.Load) and attr_path(x) in dead})
+
+
+def _running_edge(fn):
+    fx = _fnorm(fn)
+
+    def p(n, lab):
+        f = fx.edge_fact(n, lab)
+        return bool(f) and ((f[0] == "truth" and f[1] == "self._running") or
+                            (f[0] in ("is", "==") and {f[1], f[2]} == {"True", "self._running"}))
+    return p
+
+
+def _when_stopped(fn, dead):
+    """What `fn` (a SegmentFetcher method) does on a stopped fetcher, on the paths that do not pass a
+    `self._running` test: (first read of a deleted attribute or None, whether eventually(self.loop) is reached
+    without such a read)."""
+    cfg = fn.cfg()
+    running = _running_edge(fn)
+    wake = _schedules(lambda p: p == "self.loop")
+    found = {"read": None, "wakes": False}
+
+    def transfer(n, lab, nxt, st):
+        if lab == "exc" or running(n, lab):
+            return None
+        if n.kind not in ("entry", "exit", "raise"):
+            rd = _dead_reads(n, dead)
+            if rd:
+                if found["read"] is None:
+                    found["read"] = (n, rd[0])
+                return None
+            if wake(n):
+                found["wakes"] = True
+        return 0
+    explore(cfg, 0, transfer)
+    return found["read"], found["wakes"]
+
+
+def _stale_fetcher_sites(idx):
+    """[(fetcher method, call, node method)]: a SegmentFetcher method calls self.stop() and then reports to
+    self._node.M(..), and DownloadNode.M can return without re-binding self._active_segment - the node keeps pointing at
+    a stopped fetcher (in the unchanged code: process_blocks, until the segment has been decoded in the thread pool)."""
+    fcls = idx.cls(FETCH)
+    ncls = idx.cls(NODE)
+    out, seen = [], 0
+    for f in fcls.methods.values():
+        cfg = f.cfg()
+        stops = cfg.find(_calls(f, "self.stop"))
+        if not stops:
+            continue
+        after = set()
+        for s in stops:
+            vis, _par = explore(cfg, 0, lambda n, lab, nxt, st: None if lab == "exc" else 0, start=s)
+            after |= {i for (i, _s) in vis if i != s.id}
+        for i in sorted(after):
+            n = cfg.nodes[i]
+            for c in node_calls(n):
+                nm = _cn(f, n, c)
+                if not nm.startswith("self._node.") or nm.count(".") != 2:
+                    continue
+                g = ncls.lookup(nm.rsplit(".", 1)[1])
+                if g is None:
+                    continue
+                seen += 1
+                ws, _k, _v, _p = _unexcused(g, stores("self._active_segment"))
+                if ws:
+                    out.append((f, c, g))
+    if not seen:
+        raise AnchorVanished("no SegmentFetcher method stops itself and then reports to its node: cannot decide whether the "
+                             "node can hold a stopped fetcher")
+    return out
+
+
+def _records_shares(n):
+    return any(call_name(c) in ("self._shares.update", "self._shares.add") for c in node_calls(n)) \
+        or "self._shares" in node_stores(n)
+
+
+def _rule_stopped_fetcher(ctx: Context):
+    """C03.10 / C03.11: the node keeps `_active_segment` pointing at a fetcher that has stopped for as long as its
+    segment is being decoded.  Events of the finder that arrive in that window are still forwarded to it."""
+    idx = ctx.idx
+    _stop, dead = _stopped_state(idx)
+    fcls = idx.cls(FETCH)
+    stale = _stale_fetcher_sites(idx)
+    why_stale = ""
+    if stale:
+        f0, _c0, g0 = stale[0]
+        why_stale = "%s stops the fetcher and calls %s, which leaves _active_segment pointing at it" % (short(f0), short(g0))
+
+    with ctx.rule("C03.10", "R2", "DownloadNode.got_shares records the shares in self._shares before (or whatever the outcome "
+                  "of) the hand-over to the active fetcher: add_shares raises on a fetcher that has stopped, and the node "
+                  "still points at one while its segment is decoded", expected=2) as r:
+        gs = idx.func(NODE + ".got_shares")
+        cfg = gs.cfg()
+        if not stale or not dead:
+            ctx.note("C03.10: the node cannot hold a stopped fetcher whose state is gone; the order of got_shares is free")
+            r.site(gs, None, "premise absent: %s" % ("stop() deletes nothing" if stale else "no stale fetcher"))
+            r.site(gs, None, "premise absent")
+        else:
+            r.site(stale[0][0], stale[0][1], "premise: " + why_stale)
+            risky = {}
+            for n in cfg.nodes:
+                for c in node_calls(n):
+                    nm = _cn(gs, n, c)
+                    if not nm.startswith("self._active_segment.") or nm.count(".") != 2:
+                        continue
+                    g = fcls.lookup(nm.rsplit(".", 1)[1])
+                    rd = _when_stopped(g, dead)[0] if g is not None else None
+                    if rd is None:
+                        r.site(gs, c, "%s cannot raise on a stopped fetcher" % nm)
+                        continue
+                    r.site(gs, c, "%s raises on a stopped fetcher (reads %s, deleted by stop())" % (nm, rd[1]))
+                    risky[n.id] = (c, nm, rd[1])
+            # which handlers take the AttributeError of the hand-over
+            allowed = set()
+            for nid in risky:
+                for (d, l) in cfg.succ[nid]:
+                    if l != "exc":
+                        continue
+                    dn = cfg.nodes[d]
+                    if dn.kind == "except":
+                        m = C._default_exc_match("AttributeError", dn.ast.type)
+                        if m is False:
+                            continue
+                        allowed.add((nid, d))
+                        if m is True:
+                            break
+                    else:
+                        allowed.add((nid, d))
+
+            def transfer(n, lab, nxt, st):
+                if n.kind in ("entry", "exit", "raise"):
+                    return st
+                if _records_shares(n):       # also in the copy of a `finally` body that an exception passes through
+                    return None
+                if lab == "exc":
+                    if st == "X":
+                        return "X"
+                    return "X" if (n.id, nxt.id) in allowed else None
+                return st
+            visited, parent = explore(cfg, 0, transfer)
+            r.count(len(visited))
+            tail = ("the node still points at a fetcher that has stopped while its segment is decoded (%s), and shares "
+                    "found in that window are never remembered: once the servers used so far fail, later segments cannot "
+                    "be fetched although k intact shares are on servers that answered" % why_stale)
+            for nid in sorted(risky):
+                c, nm, attr = risky[nid]
+                if (nid, 0) in visited and not any(a == nid for (a, _d) in allowed):
+                    w = witness(cfg, parent, (nid, 0))
+                    r.violation(gs, gs.loc(c), "got_shares calls %s before it has recorded the shares in self._shares; on a "
+                                "stopped fetcher that call raises (stop() deletes %s) and got_shares is left before the "
+                                "recording: %s (path: %s)" % (nm, attr, tail, w.brief()), w)
+            for end in (cfg.exit, cfg.raise_exit):
+                if (end.id, "X") in visited:
+                    w = witness(cfg, parent, (end.id, "X"))
+                    r.violation(gs, gs.loc(), "got_shares can finish after a failed hand-over to a stopped fetcher without "
+                                "recording the shares in self._shares: %s (path: %s)" % (tail, w.brief()), w)
+
+    with ctx.rule("C03.11", "R3", "SegmentFetcher._do_loop does nothing for a stopped fetcher: the node forwards "
+                  "no_more_shares to the stopped fetcher it still points at, that wakes the loop, and an exception there "
+                  "is reported as fetch_failed for a segment whose blocks were all fetched", expected=2) as r:
+        dl = idx.func(FETCH + "._do_loop")
+        lp = idx.func(FETCH + ".loop")
+        ncls = idx.cls(NODE)
+        # which fetcher methods the node calls on _active_segment, and which of them wake the loop of a stopped fetcher
+        wakers = []
+        for g in ncls.methods.values():
+            for n in g.cfg().nodes:
+                for c in node_calls(n):
+                    nm = _cn(g, n, c)
+                    if nm.startswith("self._active_segment.") and nm.count(".") == 2 and not nm.endswith(".stop"):
+                        m = fcls.lookup(nm.rsplit(".", 1)[1])
+                        if m is not None and _when_stopped(m, dead)[1]:
+                            wakers.append((g, c, m))
+        reports = bool(lp.cfg().find(_calls(lp, "self._node.fetch_failed")))
+        if not stale or not wakers or not reports:
+            ctx.note("C03.11: a stopped fetcher's loop is never woken / its failure never reaches the node")
+            r.site(dl, None, "premise absent")
+            r.site(dl, None, "premise absent")
+        else:
+            g, c, m = wakers[0]
+            r.site(g, c, "premise: %s; %s forwards to %s, which schedules the loop without looking at _running" % (
+                why_stale, short(g), short(m)))
+            cfg = dl.cfg()
+
+            def harmful(n):
+                if n.kind in ("entry", "exit", "raise"):
+                    return None
+                rd = _dead_reads(n, dead)
+                if rd:
+                    return "reads %s, which stop() deleted" % rd[0]
+                for cc in node_calls(n):
+                    nm = _cn(dl, n, cc)
+                    if nm in ("self._node.fetch_failed", "self._node.process_blocks"):
+                        return "calls %s a second time" % nm
+                    if nm.startswith("self.") and nm.count(".") == 1:
+                        h = fcls.lookup(nm.split(".")[1])
+                        if h is not None and h.name != "stop" and _when_stopped(h, dead)[0] is not None:
+                            return "calls %s, which reads %s deleted by stop()" % (nm, _when_stopped(h, dead)[0][1])
+                return None
+            targets = [n for n in cfg.nodes if harmful(n)]
+            if not targets:
+                raise AnchorVanished("_do_loop touches nothing that stop() invalidates")
+            r.site(dl, None, "%d statements need a running fetcher" % len(targets))
+            bad = find_path_avoiding(cfg, lambda n: n in targets, gate_edge=_running_edge(dl))
+            r.count(len(cfg.nodes))
+            if bad:
+                # the test may sit in front of the call instead
+                callers = [cs for cs in get_callgraph(idx).calls_named("_do_loop") if cs.fn.cls is fcls]
+                outer_ok = bool(callers)
+                for cs in callers:
+                    ccfg = cs.fn.cfg()
+                    if find_path_avoiding(ccfg, lambda n, _c=cs.call: any(x is _c for x in node_calls(n)),
+                                          gate_edge=_running_edge(cs.fn)):
+                        outer_ok = False
+                if not outer_ok:
+                    n, w = sorted(bad, key=lambda x: (harmful(x[0]).startswith("calls self._node."), x[0].id))[0]
+                    r.violation(dl, dl.loc(n.ast), "_do_loop can reach `%s` (%s) without having tested self._running: %s; when the "
+                                "finder reports no_more_shares in that window the stopped fetcher's loop runs, raises, and "
+                                "SegmentFetcher.loop reports fetch_failed for the segment that is being decoded - the read fails "
+                                "although k good blocks were fetched (path: %s)" % (src(dl, n.ast)[:60], harmful(n), why_stale,
+                                                                                    w.brief()), w)
+
+
 _run_without_alive = run
 
 
@@ -1202,3 +1579,5 @@ def run(ctx: Context):   # noqa: F811
     _rule_alive_filter(ctx)
     _rule_hand_over(ctx)
     _rule_request_accounting(ctx)
+    _rule_rejection_isolated(ctx)
+    _rule_stopped_fetcher(ctx)
